@@ -80,6 +80,15 @@ def run(ctx):
         hs = meshmc.all_states(ctx, cfgname, d, key='leaf')
         per[cfgname] = {'depth': d, 'leaf_set_distinct_states': len(hs)}
         items += [(cfgname, h, 0) for h in hs]
+    # space-refined roots (elements long in time, short in space: strong coupling) with every single further bisection
+    for cfgname in ('UnitSquare', 'Circle', 'PiSquare', 'LShapeDriver'):
+        for k in ((2, 3) if ctx.tier == 'quick' else (1, 2, 3, 4)):
+            if cfgname != 'UnitSquare' and ctx.tier == 'quick' and k == 3:
+                continue
+            root = meshmc.uniform_history(cfgname, k)
+            hs = meshmc.all_states(ctx, cfgname, 1 if (ctx.tier == 'quick' or k == 4) else 2, key='leaf', root=root)
+            per['{}+space{}'.format(cfgname, k)] = {'root_len': len(root), 'leaf_set_distinct_states': len(hs)}
+            items += [(cfgname, h, 0) for h in hs]
     # uniform refinements and deep roots
     for cfgname in ('UnitSquare', 'PiSquare', 'LShapeDriver', 'Circle'):
         for u in ((1, 2) if ctx.tier == 'quick' else (1, 2, 3)):
